@@ -242,9 +242,67 @@ def _pI(ck, prog):
                     firsts.add(x.const_value())
         ck.ob("DT-pI", construct, Fraction(7) in firsts, expected="first midpoint 0.5*(0+14) = 7.0 (returned when nothing titrates)",
               found=sorted(str(x) for x in firsts), slot="first-midpoint", where=f.loc(loop))
+    ck.attempt(_bracket, ck, construct, f, loop, paths, names, init)
     # boundedness: two coupled counters (a `for ... in range(k)` loop is bounded by construction)
     if isinstance(loop, ast.While):
         _bounded(ck, construct, f, loop, paths, names, init)
+
+
+def _bracket(ck, construct, f, loop, paths, names, init):
+    """BRACKET: the search keeps the root between its two bounds.  NCPR(pH) does not increase with pH (obligation MONO above), so a positive
+    charge at the midpoint puts the root ABOVE it: the lower bound moves up to the midpoint; a negative charge moves the upper bound down.  When
+    the bracket is widened because the search is stuck, a positive last charge means the root lies above the upper bound, so it is the upper
+    bound that must move out (and the lower one for a negative charge).  A step in the other direction loses the root for good: the search then
+    runs into its iteration limit and raises instead of returning."""
+    lo = [n for n in names if init[n].is_const() and init[n].const_value() == 0 and not n.lower().endswith("count")]
+    hi = [n for n in names if init[n].is_const() and init[n].const_value() == 14]
+    lo = [n for n in lo if "min" in n.lower() or "lo" in n.lower()] or lo
+    ck.shape(len(lo) == 1 and len(hi) == 1, "isoelectric_point: one lower bound starting at 0 and one upper bound starting at 14 (found %s / %s)" % (lo, hi), f.loc(loop))
+    lo, hi = lo[0], hi[0]
+    vlo, vhi = Rat.atom("v:" + lo), Rat.atom("v:" + hi)
+    n = 0
+    for p in [q for q in paths if q.kind == "live"]:
+        sign = mid = None
+        prev = None
+        for c in p.conds:
+            if isinstance(c, tuple) and c[0] == "cmp":
+                la, ra = sorted(c[1].atoms()), sorted(c[3].atoms())
+                chs = [a for a in la if a.startswith("CHn(")]
+                if chs and c[2] in (">", ">="):
+                    sign, mid = "+", FUNC_REG[chs[0]][1][0] if chs[0] in FUNC_REG else None
+                elif chs and c[2] == "<":
+                    sign, mid = "-", FUNC_REG[chs[0]][1][0] if chs[0] in FUNC_REG else None
+                if la == ["v:protein_charge"] and not ra:
+                    prev = "+" if c[2] in (">", ">=") else ("-" if c[2] in ("<", "<=") else prev)
+        if sign == "+" and any(isinstance(c, tuple) and c[0] == "cmp" and c[2] == "<" and any(a.startswith("CHn(") for a in c[1].atoms()) for c in p.conds):
+            sign = "-"          # `<= thr` and `< -thr` together: the negative arm
+        ck.shape(sign is not None and isinstance(mid, Rat), "isoelectric_point: a continuing path decided by the sign of the charge at the midpoint", f.loc(loop))
+        nlo, nhi = p.env.get(lo), p.env.get(hi)
+        ck.shape(isinstance(nlo, Rat) and isinstance(nhi, Rat), "isoelectric_point: numeric bounds after one iteration", f.loc(loop))
+        moved_ok = nlo.equals(mid) if sign == "+" else nhi.equals(mid)
+        ck.ob("BRACKET", construct, moved_ok, expected="charge %s 0 at the midpoint: the %s bound becomes the midpoint" % (">" if sign == "+" else "<", "lower" if sign == "+" else "upper"),
+              found={"lower": repr(nlo), "upper": repr(nhi), "under": fmt_conds(p.conds)[-160:]}, slot="bisect:%s:%s" % (sign, prev or "plain"), where=f.loc(loop),
+              note="NCPR(pH) is non-increasing in pH, so a positive charge means the root is above the midpoint")
+        if moved_ok:
+            # bounds just before the bisection step: mid = (lo1 + hi1) / 2
+            two = Rat.const(2)
+            lo1, hi1 = (two * mid - nhi, nhi) if sign == "+" else (nlo, two * mid - nlo)
+            dlo, dhi = vlo - lo1, hi1 - vhi
+            ck.shape(dlo.is_const() and dhi.is_const(), "isoelectric_point: the bracket is widened by constants", f.loc(loop))
+            a, b = dlo.const_value(), dhi.const_value()
+            if prev is None:
+                okw = a == 0 and b == 0
+                exp = "bounds unchanged before the bisection step"
+            elif prev == "+":
+                okw = a == 0 and b > 0
+                exp = "stuck with a positive charge: the UPPER bound moves out"
+            else:
+                okw = b == 0 and a > 0
+                exp = "stuck with a non-positive charge: the LOWER bound moves out"
+            ck.ob("BRACKET", construct, okw, expected=exp, found={"lower_moved_down_by": str(a), "upper_moved_up_by": str(b)}, slot="widen:%s:%s" % (sign, prev or "plain"), where=f.loc(loop),
+                  note="widening the wrong side can never bring the root back inside; the search then ends in its error branch")
+        n += 1
+    ck.count("bracket steps checked", n)
 
 
 def _literal_thr(loop):
